@@ -131,9 +131,54 @@ def load_instrumented(root="/repo"):
                     if w is not None:
                         setattr(val, cattr, w)
                         wrapped.append("%s.%s.%s" % (name, val.__name__, cattr))
+    _wrap_value_subclasses(mods)
     c = Copy(mods, True, root)
     c.wrapped_tables = sorted(set(wrapped))
     return c
+
+
+def _wrap_value_subclasses(mods):
+    """display wrappers of the package (class X(int), class Y(bytes): EnumInteger, HexDisplayedInteger,
+    HexDisplayedBytes, ...) are transparent for proxies: X(proxy) is the proxy itself.  Their only
+    purpose is __str__; equality and arithmetic are those of the wrapped value."""
+    from .values import SymInt, SymBool, SymBytes, ShByteArray
+    from .floats import SymFloat
+    proxies = (SymInt, SymBool, SymBytes, ShByteArray, SymFloat)
+    done = {}
+    for m in list(mods.values()):
+        for attr, K in list(m.__dict__.items()):
+            if not (isinstance(K, type) and getattr(K, "__module__", "").startswith(PKG)):
+                continue
+            if not issubclass(K, (int, bytes)) or issubclass(K, bool):
+                continue
+            F = done.get(K)
+            if F is None:
+                def make(K):
+                    class _M(type(K)):
+                        def __instancecheck__(cls, obj):
+                            return isinstance(obj, K)
+
+                    class F(K, metaclass=_M):
+                        def __new__(cls, *a, **k):
+                            if a and isinstance(a[0], proxies):
+                                return a[0]
+                            return K(*a, **k)
+                    F.__name__ = K.__name__
+                    F.__qualname__ = K.__qualname__
+                    for n, v in list(vars(K).items()):
+                        if isinstance(v, staticmethod):
+                            f = v.__func__
+
+                            def wrap(f):
+                                def g(*a, **k):
+                                    if a and isinstance(a[0], proxies):
+                                        return a[0]
+                                    return f(*a, **k)
+                                return staticmethod(g)
+                            setattr(F, n, wrap(f))
+                    return F
+                F = done[K] = make(K)
+            m.__dict__[attr] = F
 
 
 @contextlib.contextmanager
